@@ -60,6 +60,11 @@ CHECKS = {
     technique="exact Clifford-frame + Pauli-rotation normal form in TLA+ (Pauli.tla, Gates.tla); every expansion emitted by the REAL NV transpiler is validated by TLC (NvEquiv) against the vanilla gate's denotation; published matrices compared numerically with the denotation exported by TLC",
     text="For every vanilla gate the transpiler accepts x every placement over electron (id 0) and carbons (ids 1, 2) the real NVSubroutineTranspiler output is handed to TLC, which computes the normal form of the gate and of the expansion on three qubits (so a borrowed electron must be restored) and compares them - equality up to global phase, valid for every input state; MOV is checked by the state-transfer condition in both directions; rotations over (n, d) boundaries, all d <= 8, random pairs, literal pass-through for d > 20, and the hardware-mode angle normalisation for d in 0..4. The published matrix of every instruction class of both flavours is compared numerically (1e-9, up to phase) with the symbolic denotation exported by TLC.",
     note="Trusted: TLC, the normal-form calculus (Pauli.tla; exact when residual rotations commute, otherwise the check stops with exit 2), numpy for the matrix clause. Defects found and repaired in /repo: S/T adjoints (8beb0e2), crot_y matrix axis (9845c94)."),
+ "C19": dict(
+    engine="angle", category="exploration", design="5 C19",
+    technique="exact fixed-point acceptance predicate in TLA+ (Angle.tla, 4 limbs base 2^15) evaluated by TLC on the recorded outputs of the real float function",
+    text="The property (every step has 0<=n<=255 and 0<=d<=255 and the steps add up to the angle modulo 2 pi within the tolerance) is a TLC-evaluated predicate in fixed-point arithmetic of resolution 2^-45 half turns; the real get_angle_spec_from_float is sampled on negative angles, angles beyond 2 pi, dyadic multiples of pi down to pi/2^32, values within tolerance of 0 and 2 pi and random angles, for tolerances 1e-1..1e-9 called in ascending and descending order on the same angle, and every returned step list is validated. This is sampling of a numeric function with an exact oracle, not model checking of IEEE-754 code.",
+    note="Trusted: TLC, the rig's exact rational conversion of floats (fractions.Fraction, 60-digit pi). Two defects found and repaired in /repo (364376d): tolerance compared in units of pi; steps with d>=32 dropped."),
 }
 
 REASON_TODO = "check not built yet (work in progress; see DESIGN.md section 9)"
